@@ -42,7 +42,7 @@ func TestC48(t *testing.T) {
 		n++
 		target := fmt.Sprintf("/c48/%d", n)
 		pi := rapid.IntRange(-1, len(c48Points)-1).Draw(rt, "point") // -1 = HandleAccept
-		stop := rapid.IntRange(0, nSlots).Draw(rt, "stopslot")      // nSlots = all GoOn
+		stop := rapid.IntRange(0, nSlots).Draw(rt, "stopslot")       // nSlots = all GoOn
 		s := &filtScript{V: map[int][]int{}, RespStatus: rapid.SampledFrom([]int{200, 403, 418, 503}).Draw(rt, "rstatus"),
 			RespBody: rapid.StringMatching(`[a-z]{0,30}`).Draw(rt, "rbody"), RespHeader: map[string]string{"X-Mod": fmt.Sprint(n)},
 			RedirURL: fmt.Sprintf("http://r.example/x%d", n), RedirCode: rapid.SampledFrom([]int{301, 302, 307}).Draw(rt, "rcode")}
